@@ -2,6 +2,7 @@ import XdistModel.Driver.Sched
 import XdistModel.Driver.Worker
 import XdistModel.Driver.Pure
 import XdistModel.Driver.Ctl
+import XdistModel.Driver.Sys
 open Xdist.Driver
 
 def main (args : List String) : IO UInt32 := do
@@ -11,5 +12,6 @@ def main (args : List String) : IO UInt32 := do
   | ["sched"] => loop stdin stdout ({} : Sched.St) Sched.handle; return 0
   | ["ctl"] => loop stdin stdout ({} : Ctl.St) Ctl.handle; return 0
   | ["pure"] => loop stdin stdout ({} : Pure.St) Pure.handle; return 0
+  | ["sys"] => loop stdin stdout ({} : Sys.St) Sys.handle; return 0
   | ["worker"] => loop stdin stdout ({} : Xdist.Worker.State) Worker.handle; return 0
   | _ => IO.eprintln "usage: driver <component>"; return 2
